@@ -78,6 +78,33 @@ def run(prop="C14", tier="quick"):
     if cthr != thr_fields:
         F.append(Finding(prop, "R-FATTAB", os.path.join(REPO, "configure.ac"), 0, "fat_thresholds", "set:fat_thresholds",
                          "configure.ac fat_thresholds %s and the threshold fields of struct cpuvec_t %s differ" % (cthr, thr_fields)))
+    # ---- per-CPU setups: the fat dispatcher may only install kernels from directories that configure selects for that
+    # CPU in a non-fat build (those are the directories whose instruction-set extensions the CPU has)
+    paths = {}
+    lines = ca.split("\n")
+    for i, ln in enumerate(lines):
+        mm = re.match(r"^\s*(\w+)-\*-\*\)\s*$", ln)
+        if mm and i + 1 < len(lines):
+            pm = re.search(r'path_64="([^"]*)"', lines[i + 1])
+            if pm and "x86_64w" not in pm.group(1) and "x86_64" in pm.group(1):
+                paths[mm.group(1)] = set(pm.group(1).split())
+    setups = re.findall(r"#define\s+CPUSETUP_(\w+)[ \t]+([^\n]*)", fc)
+    if len(setups) < 15 or len(paths) < 15:
+        raise AnalysisBroken("R-FATTAB: only %d CPUSETUP_ lines / %d configure paths found" % (len(setups), len(paths)))
+    for cpu, chain in setups:
+        dirs = ["x86_64/" + d.replace("_", "/") for d in re.findall(r"CPUVEC_SETUP_(\w+)", chain)]
+        # k8_k8only style names: the directory separators are the underscores between known directory names
+        dirs = [d.replace("x86_64/k8/k10/k102", "x86_64/k8/k10/k102") for d in dirs]
+        if cpu not in paths:
+            res["stats"]["cpus_without_configure_path"] += 1
+            continue
+        for d in dirs:
+            res["stats"]["comparisons"] += 1
+            if d not in paths[cpu]:
+                F.append(Finding(prop, "R-FATTAB", os.path.join(REPO, "mpn/x86_64/fat/fat.c"), 0, "CPUSETUP_" + cpu, "cpu-path:%s:%s" % (cpu, d),
+                                 "the fat dispatcher installs kernels from mpn/%s on a %s CPU, but configure.ac does not select that directory "
+                                 "for %s (path %s): those kernels may use instructions the CPU lacks" % (d, cpu, cpu, " ".join(sorted(paths[cpu])))))
+    res["samples"].append(dict(rule="R-FATTAB", cpus=len(setups), example=dict(cpu=setups[0][0], chain=setups[0][1].strip())))
     res["samples"].append(dict(rule="R-FATTAB", fields=names[:6] + ["..."], n=len(names), thresholds=thr_fields))
     res["stats"] = dict(res["stats"])
     res["obligations"] = res["stats"]["comparisons"]
